@@ -129,7 +129,7 @@ func (r *Replayer) Run(idx int, b *Behaviour) error {
 		if rig == nil {
 			return
 		}
-		rig.waitCounts(len(expEv), 2*time.Second)
+		rig.waitCounts(len(expEv), 20*time.Second)
 		time.Sleep(2 * time.Millisecond)
 		close(rig.release)
 		for _, name := range rig.order {
@@ -220,7 +220,7 @@ func (r *Replayer) Run(idx int, b *Behaviour) error {
 				expEv = append(expEv, evRec{Op: "ADD", Height: int32(st.Ht[st.ID]), Hash: c.HashOf(st.ID), Ver: raw.Version, Merkle: HexRev(raw.Merkle),
 					Time: int64(raw.Time), Nonce: raw.Nonce, State: lab, Work: r.realCum(st.Cum[st.ID], st.Res == "O"), Prev: HexRev(raw.Prev)})
 			}
-			rig.waitCounts(len(expEv), 2*time.Second)
+			rig.waitCounts(len(expEv), 20*time.Second)
 		}
 		// once the table has diverged from the specification, later table comparisons would only repeat the divergence; the
 		// answers are still asked and compared with what the specification's store owes: a read property is stated about the
